@@ -162,7 +162,21 @@ def _pick_blocklen(r, form):
     return n
 
 
-KINDS = ['uleb', 'sleb', 'int', 'i24', 'cstr', 'cstr_fn', 'block', 'rue', 'ilen', 'form_string', 'ds_int', 'abbrev', 'cstr_enc']
+KINDS = ['uleb', 'sleb', 'int', 'i24', 'cstr', 'cstr_fn', 'block', 'rue', 'ilen', 'form_string', 'ds_int', 'abbrev', 'cstr_enc', 'ds_form']
+
+# the decoder DWARFStructs hands out per attribute form, against the encoding DWARF (v2-v5 section 7.5.x) assigns to the form:
+# ('u', n) fixed-width unsigned of n bytes | 'uleb' | 'sleb' | 'off' (4/8 bytes by DWARF format) | 'addr' (address size) |
+# 'refaddr' (address size in DWARF v2, offset size from v3 on) | 'b16' (16 raw bytes) | 'empty' (no bytes)
+FORM_MODEL = {'DW_FORM_addr': 'addr', 'DW_FORM_addrx': 'uleb', 'DW_FORM_addrx1': ('u', 1), 'DW_FORM_addrx2': ('u', 2),
+              'DW_FORM_addrx3': ('u', 3), 'DW_FORM_addrx4': ('u', 4), 'DW_FORM_data1': ('u', 1), 'DW_FORM_data2': ('u', 2),
+              'DW_FORM_data4': ('u', 4), 'DW_FORM_data8': ('u', 8), 'DW_FORM_data16': 'b16', 'DW_FORM_sdata': 'sleb',
+              'DW_FORM_udata': 'uleb', 'DW_FORM_strp': 'off', 'DW_FORM_strp_sup': 'off', 'DW_FORM_line_strp': 'off',
+              'DW_FORM_strx1': ('u', 1), 'DW_FORM_strx2': ('u', 2), 'DW_FORM_strx3': ('u', 3), 'DW_FORM_strx4': ('u', 4),
+              'DW_FORM_flag': ('u', 1), 'DW_FORM_ref1': ('u', 1), 'DW_FORM_ref2': ('u', 2), 'DW_FORM_ref4': ('u', 4),
+              'DW_FORM_ref_sup4': ('u', 4), 'DW_FORM_ref8': ('u', 8), 'DW_FORM_ref_sup8': ('u', 8), 'DW_FORM_ref_udata': 'uleb',
+              'DW_FORM_ref_addr': 'refaddr', 'DW_FORM_indirect': 'uleb', 'DW_FORM_flag_present': 'empty',
+              'DW_FORM_sec_offset': 'off', 'DW_FORM_ref_sig8': ('u', 8), 'DW_FORM_GNU_strp_alt': 'off',
+              'DW_FORM_GNU_ref_alt': 'off', 'DW_FORM_loclistx': 'uleb', 'DW_FORM_rnglistx': 'uleb'}
 
 # the primitives as a DWARFStructs instance hands them out: attribute -> (width in bytes or 'fmt'/'addr', signed)
 DS_ATTRS = {'Dwarf_uint8': (1, False), 'Dwarf_uint16': (2, False), 'Dwarf_uint24': (3, False), 'Dwarf_uint32': (4, False),
@@ -217,6 +231,31 @@ def gen_entry(r, kind):
             return params, v.to_bytes(3, 'little' if little else 'big'), v, 'ok'
         v = _pick_int(r, width, signed)
         return params, enc_int(v, width, little, signed), v, 'ok'
+    if kind == 'ds_form':
+        form = r.choice(sorted(FORM_MODEL))
+        little = r.random() < 0.5
+        fmt = r.choice([32, 64])
+        asz = r.choice([4, 8])
+        ver = r.choice([2, 3, 4, 5])
+        params = {'form': form, 'little': little, 'fmt': fmt, 'asz': asz, 'ver': ver}
+        m = FORM_MODEL[form]
+        if m == 'uleb':
+            v = _pick_uleb(r)
+            return params, enc_uleb(v, r.choice([0, 0, 1])), v, 'ok'
+        if m == 'sleb':
+            v = _pick_sleb(r)
+            return params, enc_sleb(v, r.choice([0, 0, 1])), v, 'ok'
+        if m == 'b16':
+            b = bytes(r.getrandbits(8) for _ in range(16))
+            return params, b, list(b), 'ok'
+        if m == 'empty':
+            return params, b'', {'hex': ''}, 'ok'
+        width = {'off': fmt // 8, 'addr': asz, 'refaddr': asz if ver == 2 else fmt // 8}.get(m) or m[1]
+        if width == 3:
+            v = r.choice([0, 1, 0xff, 0x100, 0x10000, 0x7fffff, 0x800000, 0xffffff, 0x010203, r.getrandbits(24)])
+            return params, v.to_bytes(3, 'little' if little else 'big'), v, 'ok'
+        v = _pick_int(r, width, False)
+        return params, enc_int(v, width, little, False), v, 'ok'
     if kind == 'abbrev':
         little = r.random() < 0.5
         tag = r.choice(sorted(AB_TAGS))
@@ -275,20 +314,21 @@ def gen_entry(r, kind):
     if kind == 'ilen':
         little = r.random() < 0.5
         bo = 'little' if little else 'big'
+        prm = {'little': little, 'fmt': r.choice([32, 64]), 'asz': r.choice([4, 8])}   # the field is the same whatever the structs were built for
         c = r.randrange(8)
         if c <= 2:
             v = r.choice([0, 1, 0x7fffffff, 0x80000000, 0xfffffeff, r.getrandbits(32) % 0xffffff00, r.getrandbits(16)])
-            return {'little': little}, v.to_bytes(4, bo), v, 'ok'
+            return prm, v.to_bytes(4, bo), v, 'ok'
         if c <= 4:
             v = r.choice([0, 1, 0xffffffff, 1 << 32, (1 << 64) - 1, r.getrandbits(64), r.getrandbits(20)])
-            return {'little': little}, (0xffffffff).to_bytes(4, bo) + v.to_bytes(8, bo), v, 'ok'
+            return prm, (0xffffffff).to_bytes(4, bo) + v.to_bytes(8, bo), v, 'ok'
         if c == 5:
             # DWARF v3 reserves 0xffffff00..0xffffffef as well, v4/v5 assign them to the 32-bit
             # format: either outcome is accepted for this sub-range
             w = r.choice([0xffffff00, 0xffffff01, 0xffffffef, 0xffffff00 + r.randrange(0xf0)])
-            return {'little': little}, w.to_bytes(4, bo), w, 'either'
+            return prm, w.to_bytes(4, bo), w, 'either'
         w = r.choice([0xfffffff0, 0xfffffff1, 0xfffffffe, 0xfffffff0 + r.randrange(15)])
-        return {'little': little}, w.to_bytes(4, bo) + bytes(r.getrandbits(8) for _ in range(8)), None, 'reject'
+        return prm, w.to_bytes(4, bo) + bytes(r.getrandbits(8) for _ in range(8)), None, 'reject'
     raise AssertionError(kind)
 
 
@@ -380,11 +420,13 @@ def _construct_for(kind, params):
         sub = C.ULInt8('') if params['sub'] == 'u8' else cu.ULEB128('')
         c = cu.RepeatUntilExcluding(lambda obj, ctx: obj == 0, sub)
     elif kind == 'ilen':
-        c = DWARFStructs(params['little'], 32, 8, 4).Dwarf_initial_length('')
+        c = DWARFStructs(params['little'], params.get('fmt', 32), params.get('asz', 8), 4).Dwarf_initial_length('')
     elif kind == 'ds_int':
         c = getattr(DWARFStructs(params['little'], params['fmt'], params['asz'], 4), params['attr'])('')
     elif kind == 'abbrev':
         c = DWARFStructs(params['little'], 32, 8, 5).Dwarf_abbrev_declaration
+    elif kind == 'ds_form':
+        c = DWARFStructs(params['little'], params['fmt'], params['asz'], params['ver']).Dwarf_dw_form[params['form']]
     else:
         raise AssertionError(kind)
     _CONS[key] = c
@@ -400,7 +442,7 @@ def _parse(kind, params, stream, pos):
             v = parse_cstring_from_stream(stream, pos)
             return ('none',) if v is None else ('ok', v)
         v = struct_parse(_construct_for(kind, params), stream, pos)
-        if kind in ('block', 'rue'):
+        if kind in ('block', 'rue') or (kind == 'ds_form' and params['form'] == 'DW_FORM_data16'):
             v = list(v)
         if kind == 'abbrev':
             v = [v['tag'], v['children_flag'], [[a['name'], a['form'], a.get('value')] for a in v['attr_spec']]]
@@ -418,7 +460,7 @@ def _label(e):
         return ('S' if p['signed'] else 'U') + ('L' if p['little'] else 'B') + 'Int%d' % (8 * p['width'])
     if k == 'i24':
         return 'ULInt24' if p['little'] else 'UBInt24'
-    if k == 'block':
+    if k in ('block', 'ds_form'):
         return p['form']
     if k == 'ds_int':
         return 'DWARFStructs(%s).%s' % ('little' if p['little'] else 'big', p['attr'])
